@@ -69,6 +69,19 @@ class _Universal(ast.NodeTransformer):
                 return ast.copy_location(new, node)
         return node
 
+    def visit_Expr(self, node):
+        self.generic_visit(node)
+        v = node.value
+        if isinstance(v, ast.Call) and isinstance(v.func, ast.Attribute) and \
+                v.func.attr == 'extend' and len(v.args) == 1 and \
+                not v.keywords and isinstance(
+                    v.func.value, (ast.Name, ast.Subscript, ast.Attribute)):
+            tgt = v.func.value
+            tgt.ctx = ast.Store()
+            new = ast.AugAssign(target=tgt, op=ast.Add(), value=v.args[0])
+            return ast.copy_location(new, node)
+        return node
+
     def visit_Compare(self, node):
         self.generic_visit(node)
         if len(node.ops) == 1 and isinstance(node.ops[0], (ast.In, ast.NotIn)):
@@ -80,6 +93,9 @@ class _Universal(ast.NodeTransformer):
 
     def visit_For(self, node):
         self.generic_visit(node)
+        if isinstance(node.iter, ast.Tuple):
+            node.iter = ast.copy_location(ast.List(
+                elts=node.iter.elts, ctx=ast.Load()), node.iter)
         it = node.iter
         if isinstance(it, ast.Call) and isinstance(it.func, ast.Attribute) \
                 and it.func.attr == 'keys' and not it.args:
@@ -231,6 +247,9 @@ def build_reference(repo_root):
                 text = fh.read()
             tree = ast.parse(text)
             tree = ast.fix_missing_locations(_Universal().visit(tree))
+            if os.environ.get('DSA_INLINE_ALL'):
+                _inline_all_lookups(tree)
+                ast.fix_missing_locations(tree)
             import hashlib
             t = {'__sha1__': hashlib.sha1(text.encode()).hexdigest()}
             for q, node, cls, body in qualfuncs(tree):
@@ -744,6 +763,26 @@ def _loops_to_reference(fn, rf, log, q):
     ref_iters = {}
     for tg, it in ref_loops:
         ref_iters.setdefault(it, []).append(tg)
+    # recorded loops over a hoisted lookup (`tmp = X; for r in tmp`): also
+    # known under the lookup itself; restoring one re-introduces the local
+    rdefs = rf.get('defs', {})
+    rehoist = {}
+    for tg, it in ref_loops:
+        for nm, ds in rdefs.items():
+            if len(ds) == 1 and not ds[0].startswith(('for', 'unpack', 'aug')) \
+                    and _re.search(r'(?<![\w.])%s(?![\w])' % _re.escape(nm),
+                                   it):
+                try:
+                    dnode = ast.parse(ds[0], mode='eval').body
+                except SyntaxError:
+                    continue
+                if not _pure_lookup(dnode):
+                    continue
+                exp = _n(_Subst({nm: dnode}).visit(
+                    ast.parse(it, mode='eval').body))
+                if exp != it and exp not in ref_iters:
+                    ref_iters.setdefault(exp, []).append(tg)
+                    rehoist[exp] = (nm, ds[0], it)
     have = _Counter(_n(n.iter) for n in _own_nodes(fn)
                     if isinstance(n, ast.For))
     for n in sorted([x for x in _own_nodes(fn) if isinstance(x, ast.For)],
@@ -847,6 +886,33 @@ def _loops_to_reference(fn, rf, log, q):
                                      n.target)
         n.iter = ast.copy_location(ast.parse(header, mode='eval').body, it)
         have[header] += 1
+        if header in rehoist and rehoist[header][0] not in _names(fn):
+            nm, dtext, raw = rehoist[header]
+            # re-introduce the recorded local in front of the loop and use
+            # it for the lookup inside the loop
+            blk_i = [(b_, b_.index(n)) for b_ in _blocks(fn) if n in b_]
+            if blk_i:
+                b_, k_ = blk_i[0]
+                dnode = ast.parse(dtext, mode='eval').body
+
+                class RH(ast.NodeTransformer):
+                    def generic_visit(self, node):
+                        if isinstance(node, ast.expr) and _n(node) == dtext \
+                                and isinstance(getattr(node, 'ctx', None),
+                                               (ast.Load, type(None))):
+                            return ast.copy_location(ast.Name(
+                                id=nm, ctx=ast.Load()), node)
+                        return super().generic_visit(node)
+                n.iter = ast.copy_location(ast.parse(
+                    raw, mode='eval').body, n.iter)
+                n.body = [RH().visit(s_) for s_ in n.body]
+                asg = ast.Assign(targets=[ast.Name(id=nm, ctx=ast.Store())],
+                                 value=dnode)
+                ast.copy_location(asg, n)
+                b_.insert(k_, asg)
+                header = raw
+                log.append('%s: local %s re-introduced for `%s`'
+                           % (q, nm, dtext))
         log.append('%s: loop over %s restored to `for %s in %s`'
                    % (q, its, idxname, header))
     ast.fix_missing_locations(fn)
@@ -1096,6 +1162,34 @@ def _live_range(fn, name):
     return (min(lines), max(lines)) if lines else (0, 0)
 
 
+def _inline_hoisted(fn, rf, log, q):
+    """Inline hoisted lookups the reference does not know (and whose
+    definition is not that of a recorded local, i.e. not a rename)."""
+    ref_locs = set(rf.get('locals', []))
+    ref_def_texts = set()
+    for nm, ds in rf.get('defs', {}).items():
+        ref_def_texts |= set(ds)
+    for _ in range(20):
+        params, locs = local_order(fn)
+        done = False
+        for c_ in locs:
+            if c_ in ref_locs:
+                continue
+            h = _single_assign(fn, c_)
+            if h is None or not _pure_lookup(h[2].value) or isinstance(
+                    h[2].value, ast.Name):
+                continue
+            if _n(h[2].value) in ref_def_texts:
+                continue            # a renamed recorded local
+            if _inline_temp(fn, c_):
+                log.append('%s: hoisted lookup %s inlined' % (q, c_))
+                done = True
+                break
+        if not done:
+            return
+    ast.fix_missing_locations(fn)
+
+
 def _temps_and_names(fn, rf, log, q):
     params, locs = local_order(fn)
     ref_locs = rf.get('locals', [])
@@ -1233,6 +1327,26 @@ def _renumber(fn):
     fn.end_lineno = max(getattr(fn, 'end_lineno', 0) or 0, prev[0])
 
 
+def _inline_all_lookups(tree):
+    """Universal: every single-assignment local that merely names a lookup
+    (attribute / subscript chain) is replaced by the lookup."""
+    n = 0
+    for q, fn, cls, body in qualfuncs(tree):
+        for _ in range(30):
+            params, locs = local_order(fn)
+            done = False
+            for c_ in locs:
+                h = _single_assign(fn, c_)
+                if h is not None and not isinstance(h[2].value, ast.Name) \
+                        and _pure_lookup(h[2].value) and _inline_temp(fn, c_):
+                    n += 1
+                    done = True
+                    break
+            if not done:
+                break
+    return n
+
+
 def canonicalise(tree, modname, text=None):
     """Rewrite the module tree in place; returns the list of rewrites."""
     log = []
@@ -1240,6 +1354,8 @@ def canonicalise(tree, modname, text=None):
         return log
     ref = load_reference()
     _Universal().visit(tree)
+    if os.environ.get('DSA_INLINE_ALL'):
+        _inline_all_lookups(tree)
     table = ref.get(modname)
     if not table:
         ast.fix_missing_locations(tree)
@@ -1258,6 +1374,7 @@ def canonicalise(tree, modname, text=None):
         if not helpers_inlined and describe(fn) == rf:
             continue            # unchanged forms: nothing to rewrite
         n0 = len(log)
+        _inline_hoisted(fn, rf, log, q)
         _unroll_literal_loops(fn, rf, log, q)
         _orient_ifs(fn, rf, log, q)
         _loops_to_reference(fn, rf, log, q)
